@@ -22,7 +22,7 @@
      file-size many messages (`index_load_ok`); otherwise the fuel can run out even without compression:
      C10_reader_ex_dup_read (80 chunk indexes pointing at one chunk of 125 messages, 9878 bytes).
    Both OutOfFuel cases are artefacts of how Reader.v chooses its fuel, not behaviour of the Go code. *)
-From Mcap Require ConstsTie LayoutTie. (* regenerated ties to /repo's source that this property's model relies on *)
+From Mcap Require ConstsTie LayoutTie DecisionTieL. (* regenerated ties to /repo's source that this property's model relies on *)
 From Coq Require Import List NArith ZArith Bool Lia.
 From Coq.Strings Require Import Byte.
 From Mcap Require Import Bytes GoSem Crc32 Records Lexer LexerFactsA Reader ReaderTotal.
